@@ -380,11 +380,11 @@ theorem incrfloat_roundtrip : ∀ (k : Bytes) (d v : Dyadic) (now : Int) (db : D
   cases hg : Spec.get (Spec.abs now db) k with
   | none =>
     simp only [Spec.strIncrFloat, hg] at ho hst
-    cases hf : formatFloatDec d with
-    | none => simp [hf, Spec.skip] at ho
+    cases hf : formatFloatDec (f64add .zero d) with
+    | none => simp only [hf, Spec.skip] at ho; cases ho
     | some txt =>
       simp only [hf, Spec.ok] at ho hst
-      have hv : v = d := by
+      have hv : v = f64add .zero d := by
         have := ho
         simp only [Except.ok.injEq, Val.score.injEq, Score.fin.injEq] at this
         exact this
@@ -404,11 +404,11 @@ theorem incrfloat_roundtrip : ∀ (k : Bytes) (d v : Dyadic) (now : Int) (db : D
       | unknown => simp [hvf, Spec.skip] at ho
       | val x =>
         simp only [hvf] at ho hst
-        cases hf : formatFloatDec (x + d) with
+        cases hf : formatFloatDec (f64add x d) with
         | none => simp [hf, Spec.skip] at ho
         | some txt =>
           simp only [hf, Spec.ok] at ho hst
-          have hv : v = x + d := by
+          have hv : v = f64add x d := by
             have := ho
             simp only [Except.ok.injEq, Val.score.injEq, Score.fin.injEq] at this
             exact this
